@@ -3,6 +3,7 @@ import TsVerif.C02.EditProps
 import TsVerif.C02.BalanceProps
 import TsVerif.C02.BalanceSumm
 import TsVerif.C02.WidthProps
+import TsVerif.C02.LexYields
 #print axioms TsVerif.C02.summarize_padding_size
 #print axioms TsVerif.C02.spans_nested
 #print axioms TsVerif.C02.siblings_ordered
@@ -44,3 +45,12 @@ import TsVerif.C02.WidthProps
 #print axioms TsVerif.C02.desc_lt_size
 #print axioms TsVerif.C02.counts_fit
 #print axioms TsVerif.C02.counts_fit_32
+#print axioms TsVerif.C02.decode_charOK
+#print axioms TsVerif.C02.decodeAt_charOK
+#print axioms TsVerif.C02.stepPos_measure
+#print axioms TsVerif.C02.advance_posOK
+#print axioms TsVerif.C02.start_LInv
+#print axioms TsVerif.C02.lexer_position_is_measure
+#print axioms TsVerif.C02.length_sub_measure
+#print axioms TsVerif.C02.token_measures
+#print axioms TsVerif.C02.lexed_leaf_yields
